@@ -29,7 +29,7 @@ type IssueP struct {
 	Code string `json:"code"`
 	Ty   string `json:"ty"`
 	Msg  string `json:"msg"`
-	Ph   bool   `json:"ph"` // the message still contains a {{placeholder}}
+	Ph   bool   `json:"ph"`  // the message still contains a {{placeholder}}
 	Prm  string `json:"prm"` // the issue's Params, printed with sorted keys
 }
 
@@ -186,7 +186,7 @@ func projIssue(key string, i *z.ZogIssue) IssueP {
 // Before the traced run, the schema is executed once against an ALTERNATIVE matching type (same fields and tags,
 // declared in the opposite order), so that anything the schema remembers about the first type it met would show.
 func warmUp(c *Case, sch z.ZogSchema, rec *recorder) {
-	if c.Chain != nil || !hasStruct(c.Schema) || !(c.Mode == "validate" || c.Fe == "map") {
+	if c.Chain != nil || !hasStruct(c.Schema) || !(c.Mode == "validate" || c.Fe == "map" || c.Fe == "json") {
 		return
 	}
 	defer func() {
@@ -197,6 +197,25 @@ func warmUp(c *Case, sch z.ZogSchema, rec *recorder) {
 		rec.depth = 0
 	}()
 	rec.warm = true
+	if c.Mode == "parse" && (c.Fe == "map" || c.Fe == "json") {
+		// ... and once on the SAME destination type through the other in-memory front end (its keys differ):
+		// nothing about the source of an earlier call may stick to the schema either
+		func() {
+			defer func() { recover() }()
+			other := *c
+			other.Fe = map[string]string{"map": "json", "json": "map"}[c.Fe]
+			d2 := frontEndData(&other)
+			same := reflect.New(goType(c.Schema)).Interface()
+			switch s := sch.(type) {
+			case *z.StructSchema:
+				s.Parse(d2, same)
+			case *z.SliceSchema:
+				s.Parse(d2, same)
+			case *z.PointerSchema:
+				s.Parse(d2, same)
+			}
+		}()
+	}
 	alt := reflect.New(goTypeAlt(c.Schema))
 	dp := alt.Interface()
 	var data any
